@@ -54,9 +54,9 @@ def slice {α : Type} (obj : List α) (s e : Nat) : List α := (obj.drop s).take
 
 def isAlpha (c : Char) : Bool := (65 ≤ c.toNat && c.toNat ≤ 90) || (97 ≤ c.toNat && c.toNat ≤ 122)
 def isDigit (c : Char) : Bool := 48 ≤ c.toNat && c.toNat ≤ 57
-def isSchemeChar (c : Char) : Bool := isAlpha c || isDigit c || c == '+' || c == '-' || c == '.'
+def isSchemeChar (c : Char) : Bool := isAlpha c || isDigit c || c.toNat == 43 || c.toNat == 45 || c.toNat == 46   -- + - .
 /-- characters a URL component may not contain at all here: tab / CR / LF (Python removes them before parsing) -/
-def isPlain (c : Char) : Bool := !(c == '\t' || c == '\n' || c == '\r')
+def isPlain (c : Char) : Bool := !(c.toNat == 9 || c.toNat == 10 || c.toNat == 13)
 def isAsciiC (c : Char) : Bool := c.toNat < 128
 
 structure UrlParts where
@@ -87,16 +87,20 @@ structure WellFormed (p : UrlParts) : Prop where
   query_chars : ∀ q ∈ p.query, ∀ c ∈ q, isPlain c = true ∧ c ≠ '#'
   fragment_chars : ∀ f ∈ p.fragment, ∀ c ∈ f, isPlain c = true
 
+/-- an optional component with its delimiter in front -/
+def optPre (pre : Char) : Option (List Char) → List Char
+  | some q => pre :: q
+  | none => []
+
+/-- optional userinfo with its `@` behind -/
+def uiText : Option (List Char) → List Char
+  | some u => u ++ ['@']
+  | none => []
+
 /-- the URL text -/
 def render (p : UrlParts) : List Char :=
-  p.scheme ++ "://".toList
-    ++ (match p.userinfo with | some u => u ++ ['@'] | none => [])
-    ++ p.host
-    ++ (match p.port with | some q => ':' :: q | none => [])
-    ++ p.path
-    ++ (match p.query with | some q => '?' :: q | none => [])
-    ++ (match p.fragment with | some f => '#' :: f | none => [])
-
+  p.scheme ++ "://".toList ++ uiText p.userinfo ++ p.host ++ optPre ':' p.port ++ p.path ++ optPre '?' p.query
+    ++ optPre '#' p.fragment
 
 /-- what may be shown of it: scheme, host, port (as a number), path — nothing else -/
 def shown (p : UrlParts) (portText : List Char) : List Char :=
